@@ -298,7 +298,7 @@ def sample(ctx, budget=1.0, hint=None, broken=None):
             fails.append(Failure(signature=sig, what=what, input=inp, observed=obs, expected=exp, repro=repro))
 
     for it in range(int(ctx.n(300, 4000) * budget)):
-        scale = r.choice([1e-2, 1.0, 1.0, 1e3])
+        scale = r.choice([1e-4, 1e-3, 1e-2, 1.0, 1.0, 1e3, 1e5])
         start = complex(r.uniform(-1, 1), r.uniform(-1, 1)) * scale
         end = start + complex(r.uniform(-1, 1), r.uniform(-1, 1)) * scale
         rot = r.choice([0, 0, 90, 180, 270, -90, 30, 45.5, 200.5, -135.25, 400.0, 725.0, r.uniform(-720, 720)])
